@@ -104,6 +104,11 @@ func TestDumpRegress(t *testing.T) {
 	write("C13", "fixed-b1a0463-equ-cycle", CrashCase{Src: "A EQU B+1\nB EQU A*2\n\tDD B\n", Kind: "mutant"}, "EQU cycle")
 	write("C13", "boundary-template", CrashCase{Src: "\tJMP {{.x}}\n\tMOV AX,{{.\n", Kind: "mutant"}, "template metacharacters in operands")
 	write("C13", "boundary-bignum", CrashCase{Src: "\tDD 99999999999999999999\n\tDB 0xffffffffffffffffff\n", Kind: "mutant"}, "numbers beyond 64 bits")
+	write("C13", "fixed-equ-cycle3", CrashCase{Src: "A EQU B+1\nB EQU C*2\nC EQU A-3\n\tDW C\n", Kind: "mutant"}, "three-name EQU cycle with non-constant links: stack overflow at first use")
+	write("C13", "fixed-equ-cycle2", CrashCase{Src: "A EQU B+1\nB EQU A+1\n\tDW A\n", Kind: "mutant"}, "two-name cycle missed by the definition-time check")
+	write("C13", "fixed-equ-mem-self", CrashCase{Src: "A EQU [A]\n\tMOV AX,A\n", Kind: "mutant"}, "self reference through a memory operand")
+	write("C13", "fixed-equ-far-self", CrashCase{Src: "A EQU 8:A\n\tJMP A\n", Kind: "mutant"}, "self reference through a far pointer")
+	write("C13", "fixed-equ-doubling", CrashCase{Src: scaledInput("equdouble", 10000), Kind: "scale", Family: "equdouble"}, "40-level doubling chain: 2^40 expansions")
 	// ---- C04
 	write("C04", "seeded-C04-2-chain", BranchCase{Mode: 16, Org: -1, Kind: "chain", Trailing: true, Chain: []string{"JMP", "JE"}, Gaps: []int{123, 2}}, "widening the inner branch pushes the outer one over rel8 (needs two re-assembly rounds)")
 	write("C04", "seeded-C04-2-chain3", BranchCase{Mode: 16, Org: 0x7c00, Kind: "chain", Trailing: true, Chain: []string{"JC", "JMP", "JNZ"}, Gaps: []int{121, 1, 1}}, "three nested branches on the rel8 boundary")
